@@ -39,6 +39,9 @@ def case_strategy(draw, tier):
     if form == "tree":
         # one measurement registered under two column names (the very same array object)
         case["aliased"] = draw(st.integers(0, 2)) == 0
+    if form in ("table", "table_"):
+        # a further extra column of 64-bit integers beyond 2^53 (time stamps, database keys): carried exactly
+        case["big_ints"] = draw(st.integers(0, 2)) == 0
     if form != "tree":
         if draw(st.booleans()):
             case["ids"] = draw(st.lists(st.integers(0, 10 ** 5), min_size=n, max_size=n, unique=True))
@@ -168,6 +171,10 @@ def run_case(case, ctx):
         "tag": [t["tag"][node] for node in rows], "w": [t["w"][node] for node in rows],
     }
     if form in ("table", "table_"):
+        if case.get("big_ints"):
+            big_of_node = [2 ** 53 + 1 + 3 * node + (node % 5) * 2 ** 40 for node in range(n)]
+            cols["big"] = np.array([big_of_node[node] for node in rows], dtype=np.int64)
+            ctx.cls("extra-column-of-64-bit-integers")
         df = pd.DataFrame(cols)
         snapshot = df.copy(deep=True)
         if form == "table":
@@ -181,6 +188,10 @@ def run_case(case, ctx):
                   lambda: f"{list(out.columns)}")
         got = {c: out[c].tolist() for c in out.columns}
         _check_relabelling(ctx, t, got, form)
+        if case.get("big_ints"):
+            node_of_tag = {tg: i for i, tg in enumerate(t["tag"])}
+            ctx.check(str(out["big"].dtype) == "int64" and [int(v) for v in got["big"]] == [big_of_node[node_of_tag[int(tg)]] for tg in got["tag"]],
+                      f"{form}/column-carried", lambda: f"64-bit integer column: {got['big'][:4]} ...")
         ctx.check(bool(is_sorted((out["id"].to_numpy(), out["pid"].to_numpy()))),
                   f"{form}/is_sorted-agrees", "is_sorted says False")
         how = case.get("resort_with", "sort_nodes")
@@ -217,5 +228,5 @@ SUBCHECKS = [
                   "no-furcation-fixed-point": 10, "tree-object-with-root-not-at-0": 60,
                   "resort-with:sort_nodes_": 60, "file:fix_roots=somas": 30, "file:fix_roots=nearest": 30,
                   "one-array-under-two-column-names": 80, "rows:parents-first-ids-not-growing": 200,
-                  "rows:dense-ids-root-min-first": 100}),
+                  "rows:dense-ids-root-min-first": 100, "extra-column-of-64-bit-integers": 100}),
 ]
